@@ -7,10 +7,26 @@
 //                | X (an object the filter code never inspects: built as the real number 3.0)
 // output    :  ok <contenthex> <dictser, keys sorted> | err <kind> | panic <msg>
 //
+// view variant:  vw <steps> <prehex> <sufhex> <headhex> <tailhex> <case as above>
+//   The stream OBJECT is written as text - <headhex> (`n g obj <<dictionary>> stream EOL`) ++ <contenthex> ++
+//   <tailhex> (`EOL endstream endobj`) - and that text is a WINDOW of the one allocation
+//   <prehex> ++ window ++ <sufhex>, selected by <steps> (comma-separated, applied in order, each to the result
+//   of the previous one:  R<start>:<size> RestrictView::new(start, size),  F<start> RestrictViewFrom::new(start)).
+//   The harness checks that the view it obtained shows exactly the window (`view-mismatch` otherwise;
+//   `view-error` if a step is refused), runs parse_pdf_indirect_obj on the view (as the crate does on a file), and
+//   hands the StreamT it returns - dictionary and content now come from the view - to decode_stream.
+//   output :  <output as above> @ <content start> <content size> <cursor>     (cursors of the view)
+//             perr <kind> <cursor>      the object was not accepted   |   notstream <cursor>
+//   (<dictser> is not used here: the dictionary is the one parsed from the text; the oracle checks that the text
+//   is the rendering of <dictser>.)
+//
 // `gen` (native generator): payloads compressed by the real zlib (flate2::Compression levels 0-9),
 // optionally wrapped in ASCIIHex / ASCII85 layers written by small btoa/xxd-style encoders below.
-use parsley_rust::pcore::parsebuffer::LocatedVal;
-use parsley_rust::pdf_lib::pdf_obj::{ArrayT, DictKey, DictT, PDFObjT, ReferenceT, StreamT};
+use parsley_rust::pcore::parsebuffer::{LocatedVal, ParseBuffer, ParseBufferT};
+use parsley_rust::pcore::transforms::{BufferTransformT, RestrictView, RestrictViewFrom};
+use parsley_rust::pdf_lib::pdf_obj::{
+    parse_pdf_indirect_obj, ArrayT, DictKey, DictT, PDFObjContext, PDFObjT, ReferenceT, StreamT,
+};
 use parsley_rust::pdf_lib::pdf_prim::{IntegerT, NameT, RealT, StreamContentT};
 use parsley_rust::pdf_lib::pdf_streams::decode_stream;
 use std::collections::BTreeMap;
@@ -82,8 +98,85 @@ fn show_dict(d: &DictT, out: &mut Vec<String>) {
     }
 }
 
+// the view selected by <steps> in pre ++ window ++ suf
+fn view_of(steps: &str, pre: &[u8], window: &[u8], suf: &[u8]) -> Result<ParseBuffer, &'static str> {
+    let mut all = pre.to_vec();
+    all.extend_from_slice(window);
+    all.extend_from_slice(suf);
+    let mut pb = ParseBuffer::new(all);
+    for st in steps.split(',') {
+        let r = if let Some(t) = st.strip_prefix('R') {
+            let p: Vec<&str> = t.split(':').collect();
+            if p.len() != 2 {
+                return Err("bad-case")
+            }
+            match (p[0].parse::<usize>(), p[1].parse::<usize>()) {
+                (Ok(a), Ok(b)) => RestrictView::new(a, b).transform(&pb),
+                _ => return Err("bad-case"),
+            }
+        } else if let Some(t) = st.strip_prefix('F') {
+            match t.parse::<usize>() {
+                Ok(a) => RestrictViewFrom::new(a).transform(&pb),
+                _ => return Err("bad-case"),
+            }
+        } else {
+            return Err("bad-case")
+        };
+        pb = match r {
+            Ok(v) => v,
+            Err(_) => return Err("view-error"),
+        };
+    }
+    if pb.get_cursor() != 0 || pb.size() != window.len() || pb.remaining() != window.len() || pb.buf() != window {
+        return Err("view-mismatch")
+    }
+    Ok(pb)
+}
+
+fn show_decoded(strm: &StreamT) -> String {
+    match decode_stream(strm) {
+        Ok(s) => {
+            let mut out = Vec::new();
+            show_dict(s.dict().val(), &mut out);
+            format!("ok {} {}", hex(s.content()), out.join(","))
+        },
+        Err(e) => format!("err {}", errk(e.val())),
+    }
+}
+
+// vw <steps> <pre> <suf> <head> <tail> <kind> <meta> <dictser> <content>
+fn run_view(w: &[&str]) -> String {
+    if w.len() != 10 {
+        return "bad-case".to_string()
+    }
+    let mut window = unhex(w[4]);
+    window.extend_from_slice(&unhex(w[9]));
+    window.extend_from_slice(&unhex(w[5]));
+    let mut pb = match view_of(w[1], &unhex(w[2]), &window, &unhex(w[3])) {
+        Ok(pb) => pb,
+        Err(e) => return e.to_string(),
+    };
+    let mut ctxt = PDFObjContext::new(50);
+    match parse_pdf_indirect_obj(&mut ctxt, &mut pb) {
+        Err(e) => format!("perr {} {}", errk(e.val()), pb.get_cursor()),
+        Ok(io) => match io.val().obj().val() {
+            PDFObjT::Stream(s) => format!(
+                "{} @ {} {} {}",
+                show_decoded(s),
+                s.stream().val().start(),
+                s.stream().val().size(),
+                pb.get_cursor()
+            ),
+            _ => format!("notstream {}", pb.get_cursor()),
+        },
+    }
+}
+
 pub fn run(line: &str) -> String {
     let w: Vec<&str> = line.split_whitespace().collect();
+    if !w.is_empty() && w[0] == "vw" {
+        return run_view(&w)
+    }
     if w.len() != 4 {
         return "bad-case".to_string()
     }
@@ -99,14 +192,7 @@ pub fn run(line: &str) -> String {
         Rc::new(LocatedVal::new(dict, 0, 0)),
         LocatedVal::new(StreamContentT::new(0, len, content), 0, len),
     );
-    match decode_stream(&strm) {
-        Ok(s) => {
-            let mut out = Vec::new();
-            show_dict(s.dict().val(), &mut out);
-            format!("ok {} {}", hex(s.content()), out.join(","))
-        },
-        Err(e) => format!("err {}", errk(e.val())),
-    }
+    show_decoded(&strm)
 }
 
 // ---------------------------------------------------------------- native generator (real zlib)
@@ -150,6 +236,104 @@ fn payload(r: &mut Rng, n: usize, kind: usize) -> Vec<u8> {
 }
 
 const NAMES: [&str; 3] = ["FlateDecode", "ASCIIHexDecode", "ASCII85Decode"];
+
+// ---- the stream object as text, for the view twins of the `rz` cases.  Same spelling as `renderObj` /
+// ---- `renderHead` / `renderTail` of lean/Driver/C06.lean (the oracle checks that it is).
+fn render_name(n: &[u8], out: &mut Vec<u8>) {
+    out.push(b'/');
+    for b in n {
+        if b.is_ascii_alphanumeric() {
+            out.push(*b)
+        } else {
+            out.extend_from_slice(format!("#{:02x}", b).as_bytes())
+        }
+    }
+}
+fn render_obj(o: &PDFObjT, out: &mut Vec<u8>) {
+    match o {
+        PDFObjT::Null(_) => out.extend_from_slice(b"null"),
+        PDFObjT::Boolean(b) => out.extend_from_slice(if *b { b"true" } else { b"false" }),
+        PDFObjT::Integer(i) => out.extend_from_slice(format!("{}", i.int_val()).as_bytes()),
+        PDFObjT::Name(n) => render_name(n.val(), out),
+        PDFObjT::String(s) => {
+            out.push(b'<');
+            for b in s {
+                out.extend_from_slice(format!("{:02x}", b).as_bytes())
+            }
+            out.push(b'>')
+        },
+        PDFObjT::Reference(r) => out.extend_from_slice(format!("{} {} R", r.num(), r.gen()).as_bytes()),
+        PDFObjT::Array(a) => {
+            out.push(b'[');
+            for (i, x) in a.objs().iter().enumerate() {
+                if i > 0 {
+                    out.push(b' ')
+                }
+                render_obj(x.val(), out)
+            }
+            out.push(b']')
+        },
+        PDFObjT::Dict(d) => render_dict(d, out),
+        _ => out.extend_from_slice(b"3.0"),
+    }
+}
+fn render_dict(d: &DictT, out: &mut Vec<u8>) {
+    out.extend_from_slice(b"<<");
+    for (i, (k, v)) in d.map().iter().enumerate() {
+        if i > 0 {
+            out.push(b' ')
+        }
+        render_name(k.as_slice(), out);
+        out.push(b' ');
+        render_obj(v.val(), out)
+    }
+    out.extend_from_slice(b">>");
+}
+const HEADS: [(&[u8], &[u8]); 6] = [
+    (b"1 0 obj\n", b"\nstream\n"),
+    (b"1 0 obj ", b" stream\r\n"),
+    (b"12 0 obj", b"stream\n"),
+    (b"\n%c\n7 1 obj\n", b"\r\nstream\r\n"),
+    (b"1 0 obj", b"stream\n"),
+    (b" 3 0 obj ", b"\n\nstream\n"),
+];
+const TAILS: [&[u8]; 6] = [
+    b"\nendstream\nendobj",
+    b"\r\nendstream endobj",
+    b"\nendstream\rendobj",
+    b"\nendstream\n\nendobj",
+    b"endstream endobj",
+    b"\rendstream\r\nendobj",
+];
+
+// the view twin number `c` of an `rz` line
+fn view_twin(c: usize, line: &str, dictser: &str, content_len: usize, r: &mut Rng) -> Option<String> {
+    let toks: Vec<&str> = dictser.split(',').collect();
+    let mut i = 0;
+    let d = match parse_obj(&toks, &mut i) {
+        Some(PDFObjT::Dict(d)) => d,
+        _ => return None,
+    };
+    let style = c % 6;
+    let mut head = HEADS[style].0.to_vec();
+    render_dict(&d, &mut head);
+    head.extend_from_slice(HEADS[style].1);
+    let tail = TAILS[style];
+    let n = head.len() + content_len + tail.len();
+    let p = [1usize, 7, 11, 1000][(c / 4) % 4];
+    let junk = b"%PDF-1.7\n9 0 obj\n<</Length 10 /Filter /ASCIIHexDecode>>\nstream\n48656c6c6f>\nendstream\nendobj\n";
+    let pre: Vec<u8> = if c % 2 == 0 { (0 .. p).map(|i| junk[(i + c) % junk.len()]).collect() } else { r.bytes(p) };
+    let suf: &[u8] = if c % 3 == 0 { b"\nendstream\nendobj\n" } else { b"\n2 0 obj<</Length 2>>stream\nxx\nendstream endobj\n" };
+    let s = suf.len();
+    let (p1, s1) = (p / 2, s / 2);
+    let steps = match c % 4 {
+        0 => format!("R{}:{}", p, n),
+        1 => format!("F{},R{}:{}", p1, p - p1, n),
+        2 => format!("R{}:{},R{}:{}", p1, (p - p1) + n + s1, p - p1, n),
+        _ => format!("R{}:{},F{},R{}:{}", p / 3, (p - p / 3) + n + s1, p / 3, p - 2 * (p / 3), n),
+    };
+    Some(format!("vw {} {} {} {} {} {}", steps, hex(&pre), hex(suf), hex(&head), hex(tail), line))
+}
 
 fn encode_layer(f: usize, data: &[u8], r: &mut Rng) -> Vec<u8> {
     match f {
@@ -213,6 +397,7 @@ fn gen(seed: u64, n: usize, tier: &str, emit: &mut dyn FnMut(String)) {
     } else {
         sizes.push(1 << 20);
     }
+    let mut ctr = 0usize;
     let mut one = |r: &mut Rng, size: usize, kind: usize, chain: Vec<usize>, level: Option<u32>, eol: usize| {
         let p = payload(r, size, kind);
         let mut data = p.clone();
@@ -241,7 +426,20 @@ fn gen(seed: u64, n: usize, tier: &str, emit: &mut dyn FnMut(String)) {
             _ => format!("D2,{},A{},{},{},I{}", hex(b"Filter"), chain.len(), names.join(","), hex(b"Length"), data.len())
                 .replace(",,", ","),
         };
-        emit(format!("rz {} {} {}", hex(&p), dict, hex(&data)));
+        let line = format!("rz {} {} {}", hex(&p), dict, hex(&data));
+        // every case is followed by its view twin (tier budget: of the contents above 2 kB every eighth); the
+        // twin's random prefix comes from a generator of its own, so that the cases themselves stay what they were
+        let c = ctr;
+        ctr += 1;
+        let twin = if data.len() <= 2048 || c % 8 == 0 {
+            view_twin(c, &line, &dict, data.len(), &mut Rng::new(seed ^ 0xC06 ^ (c as u64 + 1)))
+        } else {
+            None
+        };
+        emit(line);
+        if let Some(t) = twin {
+            emit(t)
+        }
     };
     // every boundary size x every level, Flate alone (the 32 KiB truncation lives here)
     for (si, &s) in sizes.iter().enumerate() {
